@@ -86,6 +86,7 @@ func runC16(r *lib.Run) {
 		var sites []*listSite
 		sites = append(sites, findListSites(cfg, r.Seed, lib.KList, domain)...)
 		sites = append(sites, findListSites(cfg, r.Seed, lib.KOrdered, domain)...)
+		var prevRestore func()
 		for _, s := range sites {
 			if s.node.Keyless {
 				continue
@@ -105,6 +106,12 @@ func runC16(r *lib.Run) {
 				lnames = append(lnames, e.Name)
 			}
 			lnames = append(lnames, s.f.Path...)
+			origList := reflect.ValueOf(s.node.V.Elem().Field(s.f.Idx).Interface())
+			if prevRestore != nil {
+				prevRestore()
+			}
+			site := s
+			prevRestore = func() { site.node.V.Elem().Field(site.f.Idx).Set(origList) }
 			for ti, t := range s.tuples {
 				other := s.tuples[(ti+1)%len(s.tuples)]
 				kc := keyClassOf(s, t)
@@ -165,7 +172,23 @@ func runC16(r *lib.Run) {
 					}
 					em := emittedKeys(cfg, ns, lnames, s.node.Path)
 					if len(em) != 2 {
-						r.Violate("emitted-key-count:"+name, kc, fmt.Sprintf("%d distinct key maps emitted for 2 entries: %v", len(em), keysOf(em)), w(map[string]interface{}{}))
+						dbg := ""
+						if len(em) == 0 {
+							for _, n := range ns {
+								for _, u := range n.Update {
+									full := &gpb.Path{Elem: append(append([]*gpb.PathElem{}, n.Prefix.GetElem()...), u.Path.GetElem()...)}
+									if len(full.Elem) >= len(s.node.Path) {
+										_, e := cfg.CanonGNMIPath(&gpb.Path{Elem: full.Elem[:len(s.node.Path)]})
+										dbg = fmt.Sprintf(" (parent %s; first update %s; parent parse error: %v)", lib.PathString(s.node.Path), lib.GNMIPathString(full), e)
+										break
+									}
+								}
+								if dbg != "" {
+									break
+								}
+							}
+						}
+						r.Violate("emitted-key-count:"+name, kc, fmt.Sprintf("%d distinct key maps emitted for 2 entries: %v%s", len(em), keysOf(em), dbg), w(map[string]interface{}{}))
 						continue
 					}
 					found := map[uintptr]string{}
